@@ -179,7 +179,7 @@ func (vc *VC) makeReplay(fc *FuncContract, fn *ssa.Function, params []*SV, st *S
 			}
 		case *types.Interface:
 			switch {
-			case types.Implements(t, ioReaderIface()) || t.String() == "io.Reader":
+			case t.String() == "io.Reader":
 				s := sv.C[1]
 				vc.saneStream(s)
 				p0 := sel(st.H["Spos"], s)
